@@ -65,7 +65,7 @@ typedef uint32_t elem_t;
 #define ELEM_OK(p) ((void)0)
 #endif
 list_t Lq;
-int32_t ref[MAXN + 1]; int len, nops;
+int32_t ref[MAXN + 1]; int len, nops, last_op = -1;
 #define VP_PRE(c) VP_PRE_OR(c, goto skip)
 
 static void check_all(void) {
@@ -88,12 +88,18 @@ static void check_all(void) {
 #endif
 	VP_OBSERVE(len);
 }
+enum { Q_EMPLACE, Q_EMPLACE_COPY, Q_POP, Q_SET_FRONT, Q_REBUILD, Q_NOPS };
 static void finish(void) {
 	VP_WITNESS(nops < P + K, "prefix and K solver-chosen operations executed");
+	/* non-vacuity per operation: each operation is the last one of some complete history */
+	VP_WITNESS(last_op != Q_EMPLACE, "a history ending in emplace_back(args) runs to the end");
+	VP_WITNESS(last_op != Q_EMPLACE_COPY, "a history ending in emplace_back(const T&) runs to the end");
+	VP_WITNESS(last_op != Q_POP, "a history ending in pop_front runs to the end");
+	VP_WITNESS(last_op != Q_SET_FRONT, "a history ending in a write through front() runs to the end");
+	VP_WITNESS(last_op != Q_REBUILD, "a history ending in destroy + default-construct runs to the end");
 	l_dtor(&Lq);
 	vp_end();
 }
-enum { Q_EMPLACE, Q_EMPLACE_COPY, Q_POP, Q_SET_FRONT, Q_REBUILD, Q_NOPS };
 #define DONE do { check_all(); nops++; run(depth + 1); return; } while(0)
 static void run(int depth) {
 	if(depth == P + K) { finish(); return; }
@@ -101,6 +107,7 @@ static void run(int depth) {
 	VP_NATIVE_ONLY(if(getenv("VP_RANDOM")) op = (unsigned)op % Q_NOPS;)
 	if(depth < P) op = Q_EMPLACE;
 	VP_ASSUME(op >= 0 && op < Q_NOPS);
+	if(depth == P + K - 1) last_op = op;
 	switch(op) {
 	case Q_EMPLACE: VP_PRE(len < MAXN); l_emplace_back(&Lq, (uint32_t)x); ref[len++] = x; DONE;
 	case Q_EMPLACE_COPY: VP_PRE(len < MAXN); l_emplace_back_copy(&Lq, (uint32_t)x); ref[len++] = x; DONE;
